@@ -37,7 +37,8 @@ def gen_scenarios(rng, n):
             ops = [operand(rng, labels) for _ in range(n_ops)]
             a = operand(rng, labels) if geq else None
             steps.append({"mode": "gate", "gate": gate, "geq": geq, "a": a, "ops": ops, "lam": rng.choice([1, 2, 3, 0.5])})
-        scens.append({"labels": labels, "steps": steps, "objective": None, "arg_form": "dict"})
+        scens.append({"labels": labels, "steps": steps, "objective": None, "arg_form": "dict",
+                      "fork": rng.choice([None, None, None, "copy", "add0", "mul1", "ctor", "neg"])})
     return scens
 
 
